@@ -25,7 +25,7 @@ RULE = ('templates built from segment lists: literal runs (ASCII, unicode incl. 
         'fields, bad conversions, numeric-only specs, numbering clashes); each through the log-only action '
         '(snapshot=no_collect + log_msg) or the snapshot+log action, on frame-like mocks or REAL frames (sys.settrace), '
         'with a recording TracepointLogger, the default PythonPlugin logger, no logger at all, two registered loggers, or '
-        'a falsy logger object (own labelled stream: known finding), 1-3 hits with fire_count / fire_period; '
+        'a falsy logger object (__len__ = lines so far: it must still receive the line), 1-3 hits with fire_count / fire_period; '
         'a limits stream: the snapshot+log action constructed directly with small MAX_VARIABLES / MAX_STRING_LENGTH / '
         'MAX_COLLECTION_SIZE / MAX_VAR_DEPTH (budget spent by the frame before the template is processed) and extra '
         'watches — the message must not depend on collection limits; a schedule stream: two threads with different '
@@ -210,6 +210,9 @@ def corpus():
         dict(b, kind='tpl', segs=[['lit', 'shadow '], ['field', 'GSH', None, ''], ['lit', ' '], ['field', 'id', None, ''], ['lit', ' '],
                                   ['field', 'GN2 + 1', None, ''], ['lit', ' '], ['field', 'min', None, ''], ['lit', ' '],
                                   ['field', 'ONLYG', None, '']]),
+        dict(b, kind='tpl', mode='log', logger='falsy', segs=[['lit', 'n='], ['field', 'n', None, '']]),
+        dict(b, kind='tpl', logger='falsy', cfg={'fire_count': '-1', 'fire_period': '0'}, hits=[5, 6],
+             segs=[['lit', 's='], ['field', 's', None, '']]),
         dict(b, kind='raw', tpl='{n'), dict(b, kind='raw', tpl='}'), dict(b, kind='raw', tpl='{n:d}'),
         dict(b, kind='raw', mode='log', tpl='{}{0}'), dict(b, kind='tpl', segs=[]),
         # budget spent by the frame: fields with fresh values still render their values
@@ -269,8 +272,6 @@ class FalsyLogger(RecLogger):
     def __len__(self):
         return len(self.logged)
 
-
-FINDING_FALSY = 'C16/falsy-logger-skipped'
 
 
 class FaultyLogger(RecLogger):
@@ -750,11 +751,9 @@ def oracle(case, obs):
             if len(h['logger']) != 1:
                 msg_ = f'hit {i}: {len(h["logger"])} logger calls, expected 1: {h["logger"]!r}'
                 if case['logger'] == 'falsy' and not h['logger']:
-                    msg_ = 'KF[%s] %s (the registered logger object is falsy: __len__ == 0)' % (FINDING_FALSY, msg_)
+                    msg_ += ' (the registered logger object is falsy: __len__ == 0 — it is still the configured logger)'
                 v.append(msg_)
-                if case['mode'] != 'snap' or case['logger'] != 'falsy':
-                    continue
-                got, tp, ctx = msg, '<tp>', '<ctx>'
+                continue
             else:
                 got, tp, ctx = h['logger'][0]
             if got != msg:
@@ -794,26 +793,11 @@ def oracle(case, obs):
                             ((o['failed'] or o['ty'] in X.SIMPLE_TYPES) and w['value'] != o['text']):
                         v.append(f'hit {i}: field {e!r} recorded as {w["type"]} {w["value"]!r} error={w["error"]!r}; '
                                  f'in the frame it is {o["ty"]} {o["text"]!r}')
-            if case['logger'] in ('rec', 'two') and not h.get('snap_ctx_is_logger_ctx'):
+            if case['logger'] in ('rec', 'two', 'falsy') and not h.get('snap_ctx_is_logger_ctx'):
                 v.append(f'hit {i}: the context id given to the logger is not the snapshot\'s context attribute')
         elif h['snapshots']:
             v.append(f'hit {i}: log-only tracepoint pushed {h["snapshots"]} snapshot(s)')
     return v
-
-
-def known_finding(case, obs):
-    if case.get('logger') != 'falsy':
-        return None
-    v = oracle(case, obs)
-    return FINDING_FALSY if v and all(m.startswith('KF[%s]' % FINDING_FALSY) for m in v) else None
-
-
-def known_replays():
-    return [(FINDING_FALSY,
-             'a registered tracepoint logger object that is falsy (__len__ == 0) never receives the message: '
-             'LogActionResult.process tests `if tracepoint_logger:`',
-             {'kind': 'tpl', 'mode': 'log', 'via': 'mock', 'logger': 'falsy', 'cfg': {'fire_count': '1', 'fire_period': '1000'},
-              'hits': [100], 'segs': [['lit', 'n='], ['field', 'n', None, '']]})]
 
 
 def oracle_table(case, thread=None):
